@@ -53,6 +53,7 @@ LEAVES = [
     dict(p="LInfProj", eps=0.5), dict(p="LInfProj", eps=1.0, bias=True),
     dict(p="L1Proj", eps=1.0), dict(p="L1Proj", eps=0.5),
     dict(p="Box", lo=-0.5, hi=1.0), dict(p="Box", arr=True),
+    dict(p="Box", arr="rows"),                     # limits that vary along the FIRST axis and broadcast along the later ones
     dict(p="Box", lo=0.0, hi=float("inf")),        # non-negativity
     dict(p="Box", lo=-float("inf"), hi=0.5),       # one-sided from above
     dict(p="Box", lo=0.0, hi=1e12),                # an asymmetric box whose far bound is never active
@@ -187,7 +188,11 @@ def build(prog, shape, cplx):
     if P == "L1Proj":
         return sp.prox.L1Proj(shape, prog["eps"]), pc.L1Ball(prog["eps"]), shape
     if P == "Box":
-        if prog.get("arr"):
+        if prog.get("arr") == "rows":
+            lshape = [shape[0]] + [1] * (len(shape) - 1)
+            lo = (-np.abs(_bias(lshape, 5)) - 0.25 * np.arange(1, shape[0] + 1).reshape(lshape))
+            hi = (np.abs(_bias(lshape, 6)) + 0.5 * np.arange(1, shape[0] + 1).reshape(lshape))
+        elif prog.get("arr"):
             lo = -np.abs(_bias(shape, 5)) - 0.25
             hi = np.abs(_bias(shape, 6)) + 0.5
         else:
